@@ -105,7 +105,7 @@ class Reduction(ArrayExpr):
         # Compute a minimal metadata array with correct dtype and ndim
         dtype = self.dtype
         ndim = len(self.chunks)
-        return np.empty((0,) * ndim, dtype=dtype)
+        return np.zeros((0,) * ndim, dtype=dtype)
 
     def _simplify_up(self, parent, dependents):
         """Allow slice operations to push through Reduction."""
@@ -1097,7 +1097,7 @@ class PartialReduce(ArrayExpr):
                         meta = np.array(meta, dtype=original_dtype)
                 except TypeError:
                     # dtype doesn't support sum (e.g., datetime64)
-                    meta = np.empty((), dtype=meta.dtype)
+                    meta = np.zeros((), dtype=meta.dtype)
             else:
                 target_shape = (0,) * len(self.chunks)
                 # Use np.prod(shape) for array-likes that don't expose .size
